@@ -47,6 +47,9 @@ type SeqCtx struct {
 	known     map[string]*Violation
 	// cases that violated during the search but not on their own (see Fail)
 	unreproduced      int
+	// OpsPrefix is put in front of the operations of a violation (the parameters a job loops over outside bfs),
+	// before the case is replayed on its own and recorded.
+	OpsPrefix []string
 	firstUnreproduced string
 }
 
@@ -112,6 +115,9 @@ func (c *SeqCtx) Fail(clause, detail string, ops []string) {
 	// a case that violates only in the middle of the search and not when it is executed on its own depends on
 	// something an earlier case left behind in the process (a package-level pool or cache). It is set aside and the
 	// search goes on, so that a case that violates on its own - if there is one - is still found and reported.
+	if len(c.OpsPrefix) > 0 {
+		ops = append(append([]string{}, c.OpsPrefix...), ops...)
+	}
 	if c.job.Replay != nil && c.unreproduced < 50 {
 		again := false
 		for i := 0; i < 3 && !again; i++ {
